@@ -118,6 +118,44 @@ impl Default for ServerSettings {
     }
 }
 
+#[cfg(mainline_verif)]
+impl Server {
+    pub(crate) fn verif_snapshot(&self) -> crate::verif::StoreSnap {
+        crate::verif::StoreSnap {
+            immutable: self
+                .immutable_values
+                .iter()
+                .map(|(k, v)| (*k.as_bytes(), v.to_vec()))
+                .collect(),
+            mutable: self
+                .mutable_values
+                .iter()
+                .map(|(k, item)| {
+                    (
+                        *k.as_bytes(),
+                        crate::verif::MutableSnap {
+                            target: *item.target().as_bytes(),
+                            key: *item.key(),
+                            seq: item.seq(),
+                            value: item.value().to_vec(),
+                            signature: *item.signature(),
+                            salt: item.salt().map(|s| s.to_vec()),
+                        },
+                    )
+                })
+                .collect(),
+            peers: self.peers.verif_snapshot(),
+            signed_peers: self.signed_peers.verif_snapshot(),
+            immutable_cap: self.immutable_values.cap().get(),
+            mutable_cap: self.mutable_values.cap().get(),
+            peers_info_hashes_cap: self.peers.verif_caps().0,
+            max_peers: self.peers.verif_caps().1,
+            signed_peers_info_hashes_cap: self.signed_peers.verif_caps().0,
+            max_signed_peers: self.signed_peers.verif_caps().1,
+        }
+    }
+}
+
 impl Server {
     /// Creates a new [Server]
     pub fn new(settings: ServerSettings) -> Self {
